@@ -4,7 +4,7 @@
    Spec/PatWf.v: well-formedness of a parsed pattern.  "No other exception escapes" is checked by the
    correspondence run (the model's result types have exactly the two outcomes: C17_total_pattern). *)
 From Oak Require Import Model.Pattern Model.PatParse Model.XpathParse Spec.PatWf
-     Proofs.PatternProofs Proofs.PatParseProofs Proofs.XpathParseProofs.
+     Proofs.PatternProofs Proofs.PatParseProofs Proofs.XpathParseProofs Proofs.PatPrintProofs Proofs.PatParseImage.
 From Coq Require Import List.
 Import ListNotations.
 
@@ -51,9 +51,51 @@ Example C17_print_parse_xpath_inhabited :
   xparse (fun _ => None) (lit "// @items[ 1  2]/@x A ") = inl ex_steps.
 Proof. vm_compute. repeat split; try discriminate; auto. Qed.
 
-(* pattern grammar: the general round-trip theorem is NOT proved (the parser is tied to lark by the correspondence
-   run only); what is machine-checked are sample texts using every construct, with and without white space,
-   and sample rejections.  Missing: forall ast ws, parse_pattern (print ws ast) = Some ast. *)
+(* pattern grammar: every AST of the grammar (Model/Pattern.v: class alternatives or '*', field specs "@name",
+   "= value" with value = nested pattern | $var | None | "regex", "= [ value [-> c] ... [* [-> t]] ]", captures),
+   printed token by token (PatPrintProofs.pat_toks / ptok_text) with ANY white space before every token and after
+   the last one, is read back as that AST.  In this grammar no white space is ever required: two adjacent tokens
+   never lex differently when glued.  The side conditions [pat_ok] are the token classes of the grammar:
+   class and field names are CNAMEs (a letter or _ then letters, digits, _), a class list is not empty, capture and variable names
+   are CAPTURE_KEYs (lower-case letters and _, ending in a letter), the text of a regex is a legal ESCAPED_STRING body (no newline, every
+   quote preceded by an odd number of backslashes, an even number of backslashes at the end: str_scan). *)
+Theorem C17_print_parse_pattern : forall p ws trail,
+  pat_ok p -> length ws = length (pat_toks p) -> Forall pws ws -> pws trail ->
+  parse_pattern (print_pattern ws trail p) = Some p.
+Proof. exact pattern_print_parse. Qed.
+(* the same with the padding as a relation: s is the token list with white space inserted before each token *)
+Theorem C17_padded_parse_pattern : forall p s trail,
+  pat_ok p -> padded (pat_toks p) s -> pws trail -> parse_pattern (s ++ trail) = Some p.
+Proof. exact padded_parse. Qed.
+(* additional white space between tokens never changes the meaning *)
+Theorem C17_pattern_ws_irrelevant : forall p s1 t1 s2 t2,
+  pat_ok p -> padded (pat_toks p) s1 -> padded (pat_toks p) s2 -> pws t1 -> pws t2 ->
+  parse_pattern (s1 ++ t1) = parse_pattern (s2 ++ t2).
+Proof. exact pattern_ws_irrelevant. Qed.
+(* hence a grammar-derived text is accepted exactly when its AST is well-formed (C17_accept_iff_wellformed), and the
+   matcher does not depend on the white space *)
+Theorem C17_printed_compile : forall ct re_ok p ws trail,
+  pat_ok p -> length ws = length (pat_toks p) -> Forall pws ws -> pws trail ->
+  compile_text ct re_ok (print_pattern ws trail p) = compile ct re_ok true p.
+Proof. exact printed_compile_text. Qed.
+Example C17_print_parse_pattern_inhabited :
+  pat_ok demo_ast /\ length demo_ws = length (pat_toks demo_ast) /\ Forall pws demo_ws /\ pws (lit " ") /\
+  print_pattern (map (fun _ => []) demo_ws) [] demo_ast
+  = lit "(A|B@x=[(B)->a$a""r\""s""None*->t]->c@y@z=$c@e=[])".
+Proof. exact demo_ok. Qed.
+
+(* the side conditions are no restriction: every AST the parser can return satisfies them, i.e. pat_ok is exactly
+   "can be written in the grammar"; hence parse . print . parse = parse for every accepted text and every padding *)
+Theorem C17_parsed_is_printable : forall s p, parse_pattern s = Some p -> pat_ok p.
+Proof. exact parse_pattern_ok. Qed.
+Theorem C17_reprint_parses : forall s p ws trail,
+  parse_pattern s = Some p -> length ws = length (pat_toks p) -> Forall pws ws -> pws trail ->
+  parse_pattern (print_pattern ws trail p) = Some p.
+Proof. exact reprint_parses. Qed.
+Example C17_parsed_is_printable_inhabited : parse_pattern sample_text = Some sample_ast.
+Proof. exact (proj1 sample_parses). Qed.
+
+(* kept from the earlier state (sample texts only); superseded by C17_print_parse_pattern above *)
 Theorem C17_print_parse_pattern_partial :
   parse_pattern sample_text = Some sample_ast /\ parse_pattern sample_padded = Some sample_ast.
 Proof. exact sample_parses. Qed.
